@@ -24,8 +24,8 @@ FILES = {
     "src/stream/queue.rs": ["C02", "C11", "C07", "C08", "C12", "C18", "C09", "C10", "C06"],
     "src/stream/chain.rs": ["C13", "C14", "C10", "C09"],
     "src/backends.rs": ["C17", "C07", "C01", "C02", "C09", "C20"],
-    "src/symbol/mod.rs": ["C16", "C15", "C08", "C18"],
-    "src/symbol/huffman.rs": ["C15", "C16"],
+    "src/symbol/mod.rs": ["C16", "C15", "C08", "C18", "C20"],
+    "src/symbol/huffman.rs": ["C15", "C16", "C20", "C09"],
     "src/symbol/exp_golomb.rs": ["C16", "C15"],
     "src/stream/model/categorical.rs": ["C19", "C03", "C05", "C20", "C18"],
     "src/stream/model/categorical/contiguous.rs": ["C03", "C05", "C19", "C10", "C18", "C06"],
@@ -36,7 +36,7 @@ FILES = {
     "src/stream/model/quantize.rs": ["C03", "C05", "C19", "C10", "C09", "C18", "C06"],
     "src/stream/model/uniform.rs": ["C03", "C05", "C19", "C09", "C18"],
     "src/stream/model.rs": ["C03", "C05", "C18", "C10"],
-    "src/stream/mod.rs": ["C01", "C02", "C13"],
+    "src/stream/mod.rs": ["C01", "C02", "C13", "C09"],
     "src/lib.rs": ["C03", "C07", "C17", "C01", "C02", "C04", "C19"],
 }
 
